@@ -220,7 +220,7 @@ Definition new_v (sw : switches) (nf : nat) (m : gmm) (X : list (list R)) (c : c
   if upd_vars sw then
     (if upd_means sw
      then V.map2 (fun a b => a / rN m X c - b * b) (rS2 nf m X c) (new_mu sw nf m X c)
-     else V.map3 (fun a s b => (a - (1 + 1) * b * s) / rN m X c + b * b) (rS2 nf m X c) (rS1 nf m X c) (snd (fst c)))
+     else V.map3 (fun a s b => (a - (1 + 1) * b * s + b * b * rN m X c) / rN m X c) (rS2 nf m X c) (rS1 nf m X c) (snd (fst c)))
   else snd c.
 Definition newcomp (sw : switches) (nf : nat) (m : gmm) (X : list (list R)) (c : comp) : comp :=
   (new_w sw m X c, new_mu sw nf m X c, new_v sw nf m X c).
@@ -268,7 +268,7 @@ Proof.
   all: try (rewrite map_map; apply map_ext; intros c; reflexivity).
   all: try (rewrite map2_map_same; apply map_ext; intros c; reflexivity).
   all: try (rewrite map2_map_same, map3_map_same; apply map_ext; intros c; reflexivity).
-  all: try (rewrite combine_map_same; rewrite Emu at 1; rewrite map3_map_same; apply map_ext; intros c; reflexivity).
+  all: try (rewrite !combine_map_same; rewrite Emu at 1; rewrite map3_map_same; apply map_ext; intros c; reflexivity).
 
 Qed.
 
@@ -333,7 +333,7 @@ Qed.
 (* ------------------------------------------------------------ the three maximisers on one cell *)
 Lemma cell_improve (um uv : bool) n s1 s2 mu v mu' v' : 0 < n -> 0 < v ->
   mu' = (if um then s1 / n else mu) ->
-  v' = (if uv then (if um then s2 / n - mu' * mu' else (s2 - (1 + 1) * mu * s1) / n + mu * mu) else v) ->
+  v' = (if uv then (if um then s2 / n - mu' * mu' else (s2 - (1 + 1) * mu * s1 + mu * mu * n) / n) else v) ->
   0 < v' ->
   qcell n s1 s2 mu v <= qcell n s1 s2 mu' v'.
 Proof.
@@ -387,7 +387,7 @@ Lemma nth_new_v sw nf m X (c : comp) d : rows_ok nf X -> length (snd (fst c)) = 
   nth d (new_v sw nf m X c) 0 =
   if upd_vars sw then
     (if upd_means sw then S2d m X c d / rN m X c - nth d (new_mu sw nf m X c) 0 * nth d (new_mu sw nf m X c) 0
-     else (S2d m X c d - (1 + 1) * nth d (snd (fst c)) 0 * S1d m X c d) / rN m X c + nth d (snd (fst c)) 0 * nth d (snd (fst c)) 0)
+     else (S2d m X c d - (1 + 1) * nth d (snd (fst c)) 0 * S1d m X c d + nth d (snd (fst c)) 0 * nth d (snd (fst c)) 0 * rN m X c) / rN m X c)
   else nth d (snd c) 0.
 Proof.
   intros HX Hmu Hd. unfold new_v. destruct (upd_vars sw); [|reflexivity]. destruct (upd_means sw) eqn:Em.
